@@ -15,29 +15,6 @@ recorded finding F10 (outside the letter of C11: the TDM stream is not among the
 -/
 namespace MDOut
 
-structure TW where
-  labels : List Nat
-  capacity : Nat
-deriving Repr, DecidableEq
-
-/-- `if i_tdm < flags["Tw_tdm"]: steps[i_tdm] = step; i_tdm += 1` -/
-def TW.write (w : TW) (s : Nat) : TW :=
-  if w.labels.length < w.capacity then { w with labels := w.labels ++ [s] } else w
-
-/-- `append_data` is reached at the data cadence only; inside it, the stream's own modulo test -/
-def tdmStep (d t : Nat) (w : TW) (s : Nat) : TW := if isDue d s && isDue t s then w.write s else w
-
-/-- the initial snapshot (step 0) and steps `1 … k` of the run loop -/
-def tdmRun (d t : Nat) : Nat → TW → TW
-  | 0, w => tdmStep d t w 0
-  | k+1, w => tdmStep d t (tdmRun d t k w) (k + 1)
-
-/-- `_create_new`: `Tw_tdm = _n_timepoints(steps, t)` rows, cursor 0 -/
-def tdmOpen (t N : Nat) : TW := { labels := [], capacity := cap t N }
-
-/-- what the nested gates let through -/
-def tdmDue (d t N : Nat) : List Nat := (List.range (N+1)).filter (fun s => isDue d s && isDue t s)
-
 theorem tdmDue_succ (d t N : Nat) :
     tdmDue d t (N + 1) = tdmDue d t N ++ (if isDue d (N + 1) && isDue t (N + 1) then [N + 1] else []) := by
   unfold tdmDue
